@@ -153,9 +153,9 @@ def _c_function_body(src, name):
 
 def _assigned_fields(body):
     out = set()
-    for m in re.finditer(r"\b(?:s|state|strm)->(\w+)\s*(?:=(?!=)|\+=|-=|\|=|&=|\^=|<<=|>>=|\+\+|--)", body):
+    for m in re.finditer(r"\b(?:s|state|strm)->(?:x\.|strm\.)?(\w+)\s*(?:=(?!=)|\+=|-=|\|=|&=|\^=|<<=|>>=|\+\+|--)", body):
         out.add(m.group(1))
-    for m in re.finditer(r"(?:\+\+|--)\s*(?:s|state|strm)->(\w+)", body):
+    for m in re.finditer(r"(?:\+\+|--)\s*(?:s|state|strm)->(?:x\.|strm\.)?(\w+)", body):
         out.add(m.group(1))
     return sorted(out)
 
